@@ -702,7 +702,42 @@ func ruleStRotation(c *Ctx, r *Reporter) {
 		}
 		bad, path := ReachE(fn, pub, isExit, func(i ssa.Instruction) bool {
 			call, isCall := i.(*ssa.Call)
-			return isCall && call.Call.StaticCallee() == a.w.closeF && !sameValue(call.Call.Args[0], newWAL)
+			if !isCall {
+				return false
+			}
+			if call.Call.StaticCallee() == a.w.closeF && !sameValue(call.Call.Args[0], newWAL) {
+				return true
+			}
+			// a same-receiver helper that is handed a log other than the new one and closes it unless it is nil
+			h := call.Call.StaticCallee()
+			if h == nil || len(h.Blocks) == 0 || recvTypeName(h) != recvTypeName(fn) {
+				return false
+			}
+			for k, arg := range call.Call.Args {
+				if k >= len(h.Params) || !strings.HasSuffix(arg.Type().String(), "wal.WAL") || sameValue(arg, newWAL) {
+					continue
+				}
+				prm := ssa.Value(h.Params[k])
+				prmNil := func(cond ssa.Value) (bool, bool) {
+					v, trueIsNonNil, ok := nilTest(cond)
+					if !ok || v != prm {
+						return false, false
+					}
+					return !trueIsNonNil, trueIsNonNil
+				}
+				var rets []ssa.Instruction
+				for _, ret := range Returns(h) {
+					rets = append(rets, ret)
+				}
+				miss, _ := MustPassE(h, rets, func(x ssa.Instruction) bool {
+					c2, ok := x.(*ssa.Call)
+					return ok && c2.Call.StaticCallee() == a.w.closeF && c2.Call.Args[0] == prm
+				}, PruneFactEdges(prmNil))
+				if miss == nil {
+					return true
+				}
+			}
+			return false
 		}, PruneFactEdges(oldNil))
 		if bad != nil {
 			r.Bad("storage.Manager.rotateWAL:close-old", c.InsPos(bad), "after the pointer swap a success exit is reachable without closing (flushing and syncing) the old log: its buffered records are lost", c.PathString(path)...)
@@ -770,6 +805,33 @@ func ruleStRecovery(c *Ctx, r *Reporter) {
 			loop = l
 		}
 	}
+	if loop == nil { // an indexed loop over the recovered tables, first to last
+		for _, w := range IndexWalks(fn) {
+			if w.Dir != "asc" || len(w.IndexAddr) == 0 || !isRecExtract(w.IndexAddr[0].X, 0) || !walkCoversAllOf(w, func(v ssa.Value) bool { return isRecExtract(v, 0) }) {
+				continue
+			}
+			var body, done *ssa.BasicBlock
+			for _, sc := range w.Loop.Header.Succs {
+				if w.Loop.Contains(sc) {
+					body = sc
+				} else {
+					done = sc
+				}
+			}
+			if body == nil {
+				continue
+			}
+			l := &RangeLoop{Header: w.Loop.Header, Body: body, Done: done, Slice: w.IndexAddr[0].X}
+			for _, ia := range w.IndexAddr {
+				for _, ref := range *ia.Referrers() {
+					if ld, ok := ref.(*ssa.UnOp); ok && ld.Op == token.MUL {
+						l.Elems = append(l.Elems, ld)
+					}
+				}
+			}
+			loop = l
+		}
+	}
 	if loop == nil {
 		r.Undecided("storage.Manager.recoverFromWAL:publish", c.FnPos(fn), "no range loop over the recovered memtables found")
 	} else {
@@ -813,23 +875,7 @@ func ruleStRecovery(c *Ctx, r *Reporter) {
 		}
 		return trueIsNonNil, !trueIsNonNil
 	}
-	noTables := func(cond ssa.Value) (bool, bool) {
-		bo, ok := cond.(*ssa.BinOp)
-		if !ok {
-			return false, false
-		}
-		call, ok := bo.X.(*ssa.Call)
-		if !ok {
-			return false, false
-		}
-		if b, ok := call.Call.Value.(*ssa.Builtin); !ok || b.Name() != "len" || !isRecExtract(call.Call.Args[0], 0) {
-			return false, false
-		}
-		if k, ok := constInt(bo.Y); ok && k == 0 && bo.Op == token.EQL {
-			return true, false
-		}
-		return false, false
-	}
+	noTables := emptinessFact(func(v ssa.Value) bool { return isRecExtract(v, 0) })
 	maxZero := func(cond ssa.Value) (bool, bool) {
 		bo, ok := cond.(*ssa.BinOp)
 		if !ok || !isRecExtract(bo.X, 1) {
